@@ -134,8 +134,14 @@ class ProgGen:
         if kind == "query" and rng.random() < 0.15:
             # explicit response type: with an aliased result (the documented use), or next to a literal Result of another type
             resp = "RespAlias"
-            if rng.random() < 0.5:
+            if generics and not self_prefix and rng.random() < 0.5:
+                resp = rng.choice(list(generics))      # the response named by `resp=` is one of the type parameters
+            r = rng.random()
+            if r < 0.4:
                 ret = P("AliasedResult")
+            elif r < 0.6 and not self_prefix:
+                # ... or of a type of ANOTHER module that happens to have the same name: `resp=` still wins
+                ret = P("StdResult", PP("other", resp))
         attrs.append(sv_msg(kind, resp=resp))
         if kind in ("exec", "query", "sudo") and rng.random() < 0.2:
             # forwarded attributes may be written above or below `sv::msg`, and there may be several
@@ -298,12 +304,37 @@ def gen_l2_program(rng, name_classes=None, n_ifaces=None, generic=None, error=No
     # the generator (collisions are generated on purpose by the C05 check only)
     wire_used = set()
 
+    pool = []
+
+    def near(n):
+        """a name one edit away from an existing one (same length and another first / last letter, an extension, a proper
+        prefix): the lookups that route a message by its name must tell such neighbours apart"""
+        k = rng.choice(["first", "last", "extend", "prefix", "first"])
+        letters = "abcdefghklmnoprstuvwxyz"
+        if k == "first" and n[:1].isalpha():
+            return rng.choice([c for c in letters if c != n[0].lower()]) + n[1:]
+        if k == "last" and n[-1:].isalpha():
+            return n[:-1] + rng.choice([c for c in letters if c != n[-1].lower()])
+        if k == "prefix" and "_" in n.strip("_"):
+            return n.rsplit("_", 1)[0]
+        return n + rng.choice(["_from", "_x", "s"])
+
     def fresh(classes=None):
         for _ in range(300):
-            n = g.fresh_name(used, classes)
+            n = None
+            if pool and rng.random() < 0.3:
+                c = near(rng.choice(pool))
+                ck = "~" + c.replace("_", "").lower()
+                if c and c not in used and ck not in used and c not in RESERVED and c.strip("_") and not c[0].isdigit():
+                    used.add(c)
+                    used.add(ck)
+                    n = c
+            if n is None:
+                n = g.fresh_name(used, classes)
             key = n.replace("_", "").lower()
             if key not in wire_used:
                 wire_used.add(key)
+                pool.append(n)
                 return n
         raise RuntimeError("name pool exhausted")
 
